@@ -514,7 +514,7 @@ func ParseDSL(data string) (*OpenFgaDslListener, *OpenFgaDslErrorListener) {
 		case strings.TrimLeft(line, " ")[0:1] == "#":
 			cleanedLine = ""
 		default:
-			cleanedLine = strings.TrimRight(strings.Split(line, " #")[0], " \r")
+			cleanedLine = strings.TrimRight(strings.Split(line, " #")[0], " \t\r")
 		}
 
 		cleanedLines = append(cleanedLines, cleanedLine)
